@@ -109,16 +109,16 @@ def handle : List String → String
     match parseRat b, parseRat pitch, parseRat tp with
     | some b, some pitch, some tp => showMorph (dilateMorph Scenic.Gen.dilateCount b pitch tp)
     | _, _, _ => "bad-op"
-  | "morph" :: kind :: k :: cells =>
-    match k.toNat?, cells.mapM parseCell with
-    | some k, some cs =>
+  | "morph" :: kind :: k :: sx :: sy :: sz :: cells =>
+    match k.toNat?, sx.toNat?, sy.toNat?, sz.toNat?, cells.mapM parseCell with
+    | some k, some sx, some sy, some sz, some cs =>
       let m : Option Morph := match kind with
         | "dilate" => some (.dilate k) | "erode" => some (.erode k) | "same" => some .same | _ => none
       (match m with
-       | some m => let out := applyMorph m cs
+       | some m => let out := applyMorphGrid Scenic.Gen.dilationPads (sx, sy, sz) m cs
                    if out.isEmpty then "-" else " ".intercalate (out.map showCell)
        | none => "bad-op")
-    | _, _ => "bad-op"
+    | _, _, _, _, _ => "bad-op"
   | "retry" :: which :: fuel :: okPitches =>
     -- conv succeeds exactly at the listed pitches
     match fuel.toNat?, okPitches.mapM parseRat with
@@ -127,9 +127,11 @@ def handle : List String → String
         | "erode" => some Scenic.Gen.erodeLoop | "buffer" => some Scenic.Gen.bufferLoop | _ => none
       (match cfg with
        | some cfg =>
-         (match retryLoop cfg (fun p => oks.contains p) Scenic.Gen.pruningPitch fuel Scenic.Gen.pruningPitch with
-          | some n => s!"done {n}"
-          | none => "running")
+         let conv : Rat → Bool := fun p => oks.contains p
+         let tr := " ".intercalate ((retryTrace cfg conv Scenic.Gen.pruningPitch fuel Scenic.Gen.pruningPitch).map showRat)
+         (match retryLoop cfg conv Scenic.Gen.pruningPitch fuel Scenic.Gen.pruningPitch with
+          | some n => s!"done {n} {tr}"
+          | none => s!"running {tr}")
        | none => "bad-op")
     | _, _ => "bad-op"
   | _ => "bad-op"
